@@ -28,6 +28,7 @@ import EPV.Gen.EPPistonFin
 import EPV.Gen.EPPistonRun
 import EPV.Lemmas.EPPiston
 import EPV.Lemmas.EPPistonModels
+import EPV.Lemmas.EPPistonExists
 import EPV.Tactics
 
 set_option linter.all false
@@ -199,6 +200,15 @@ theorem fin_plastic_jump (p : EPPistonFin.P) (h : EPPistonFin.outcome p = .ok) (
     | epv_absurd
     | (simp only [epv_leaf] at hp2 hr2 ⊢
        exact EPP.plastic_jump hρy h1 h2 (by rw [hp2] <;> ring) hr2 (by ring))
+
+/-- non-vacuity: the hypotheses of the elastic and plastic jump theorems hold for the default problem
+(model = 'hyperIfin'; the theorems for the other two models have literally the same hypotheses) -/
+example : ∃ p : EPPistonIfin.P, EPPistonIfin.outcome p = .ok ∧ ifinConsistent p ∧ p.rho_y ≠ 0 ∧ p.rho0 - p.rho_y ≠ 0 ∧
+    2 * p.rho0 * p.rho_y - p.rho_y * p.gamma * (p.rho_y - p.rho0) ≠ 0 ∧
+    0 ≤ p.rho_y * (p.sdev_y - p.p_y) / (p.rho0 * (p.rho0 - p.rho_y)) ∧
+    p.wv_pl - p.up ≠ 0 ∧ p.wv_pl - p.vel_y ≠ 0 :=
+  ⟨ifinDefault, ifinDefault_ok.1, ifinDefault_ok.2, ifinDefault_hyps.1, ifinDefault_hyps.2.1, ifinDefault_hyps.2.2.1,
+    ifinDefault_hyps.2.2.2.1, ifinDefault_hyps.2.2.2.2.1, ifinDefault_hyps.2.2.2.2.2.1⟩
 
 end
 
